@@ -1,5 +1,7 @@
 import HcipyVerif.Lemmas.ZernikeIndex
 import HcipyVerif.Lemmas.ZernikeTables
+import HcipyVerif.Lemmas.ZernikeTrig
+import Mathlib.Data.Rat.BigOperators
 
 /-!
 # C13 — Zernike modes match their definition for every index and every point
@@ -327,6 +329,34 @@ theorem azimuthal_angle_addition (c s : Rat) (j k : Nat) : cisPow c s (j + k) =
     ((cisPow c s j).1 * (cisPow c s k).1 - (cisPow c s j).2 * (cisPow c s k).2,
      (cisPow c s j).1 * (cisPow c s k).2 + (cisPow c s j).2 * (cisPow c s k).1) := cisPow_add c s j k
 
+/-- over `ℝ`: for a direction `θ` with rational cosine and sine the model's azimuthal factor is
+`cos(mθ)` (`m > 0`), `sin(|m|θ)` (`m < 0`), `1` (`m = 0`) -/
+theorem azimuthal_is_cos_sin (m : Int) (c s : Rat) (θ : ℝ) (hc : (c : ℝ) = Real.cos θ) (hs : (s : ℝ) = Real.sin θ) :
+    (azimQ m c s : ℝ) = if m = 0 then 1 else if 0 < m then Real.cos (m * θ) else Real.sin (-m * θ) :=
+  azimQ_trig m c s θ hc hs
+
+/-- **The value clause of C13.** For every valid `(n, m)` with `n ≤ 20`, every rational radius `r`
+(the centre included), every diameter and every direction `θ` with rational cosine and sine, the value the
+repaired code computes is `√(n+1)·√2^{[m≠0]}` (`normSq`, kept symbolic) times
+`R_n^{|m|}(2r/D) · {cos mθ, sin |m|θ, 1}` with `R` given by the factorial formula. -/
+theorem mode_matches_definition (n : Nat) (m : Int) (hn : n ≤ 20) (hv : valid n m = true) (D r c s : Rat) (θ : ℝ)
+    (hc : (c : ℝ) = Real.cos θ) (hs : (s : ℝ) = Real.sin θ) :
+    (modeQ n m D r c s : ℝ) =
+      (∑ k ∈ range ((n - m.natAbs) / 2 + 1),
+        ((-1) ^ k * ((n - k).factorial : ℝ) /
+          ((k.factorial : ℝ) * (((n + m.natAbs) / 2 - k).factorial : ℝ) * (((n - m.natAbs) / 2 - k).factorial : ℝ))) *
+            ((2 * r / D : Rat) : ℝ) ^ (n - 2 * k)) *
+      (if m = 0 then 1 else if 0 < m then Real.cos (m * θ) else Real.sin (-m * θ)) := by
+  obtain ⟨hv1, hv2⟩ := valid_iff.mp hv
+  unfold modeQ
+  rw [Rat.cast_mul, azimQ_trig m c s θ hc hs, radial_matches_definition n m.natAbs hn hv1 hv2]
+  congr 1
+  rw [Rat.cast_sum]
+  apply Finset.sum_congr rfl
+  intro k _
+  push_cast
+  rfl
+
 /-! ## The optional cache -/
 
 /-- Whatever list of requests (any modes, any order, repeated, with and without cut-off) is evaluated
@@ -357,5 +387,6 @@ theorem cache_old_counterexample :
 example : valid 4 (-2) = true := by decide
 example : ∃ c s : Rat, c ^ 2 + s ^ 2 = 1 ∧ c ≠ 0 ∧ s ≠ 0 := ⟨3 / 5, 4 / 5, by norm_num, by norm_num, by norm_num⟩
 example : (4 - 0) % 2 = 0 ∧ 0 ≤ 4 ∧ 4 ≤ 20 := by decide
+example : ∃ (c s : Rat) (θ : ℝ), (c : ℝ) = Real.cos θ ∧ (s : ℝ) = Real.sin θ := ⟨1, 0, 0, by simp, by simp⟩
 
 end HcipyVerif.C13
